@@ -102,7 +102,7 @@ Proof. induction 1; simpl; [apply mono_ret|]. apply mono_bind; auto. Qed.
 
 (* ---------- the helper functions only read the state ---------- *)
 
-Lemma reader_unravel_names : forall n, reader (unravel_names n).
+Lemma reader_unravel_gen full : forall n, reader (unravel_gen full n).
 Proof.
   induction n using node_children_ind. rename H into IH.
   destruct n; simpl; try (apply reader_raise);
@@ -116,6 +116,9 @@ Proof.
     inversion IH; subst. apply reader_bind; [assumption|]. intros a.
     apply reader_bind; [apply IHes; assumption|]. intros b. apply reader_ret.
 Qed.
+
+Lemma reader_unravel_names : forall n, reader (unravel_names n).
+Proof. exact (reader_unravel_gen false). Qed.
 
 Lemma reader_arg_names args : reader (arg_names args).
 Proof.
@@ -186,7 +189,7 @@ Section WithOracle.
   Qed.
   Lemma mono_remove_identifiers t : mono (remove_identifiers t).
   Proof.
-    unfold remove_identifiers. apply mono_bind; [apply reader_mono, reader_unravel_names|].
+    unfold remove_identifiers. apply mono_bind; [apply reader_mono, reader_unravel_gen|].
     intros. apply mono_mapM_. intros. apply mono_mod_ctx.
   Qed.
   Lemma mono_add_arguments ps : mono (add_arguments ps).
